@@ -705,7 +705,7 @@ class LogOperationRecorder(BaseOperationRecorder):
             # pylint: disable=attribute-defined-outside-init
             # if Auth header, mask data
             if 'Authorization' in headers:
-                authtype, cred = headers['Authorization'].split(' ')
+                authtype, _, cred = headers['Authorization'].partition(' ')
                 headers['Authorization'] = _format(
                     "{0} {1}", authtype, 'X' * len(cred))
 
